@@ -7,6 +7,25 @@ _PENDING = ["C01", "C02", "C03", "C04", "C05", "C06", "C07", "C08", "C09", "C10"
 RELAY_NOTE = "Trusted: Coq kernel; the Go harness (event abstraction: the harness records the credential descriptor, attribute presence/size and relay port it used), pion/stun encoding and MESSAGE-INTEGRITY, Go timers under testing/synctest. One listener/one allocation manager is modelled; TCP relay connections are C16's model."
 
 CHECKS = [
+    {"property_id": "C18",
+     "text": "Translator + verified checker: on every run translator/lockskel turns every function and function literal of the module "
+             "(317, 126 of them lock-relevant) into a lock skeleton (Model/LockSkel.v: Lock/Unlock/RLock/RUnlock incl. deferred, reads and "
+             "writes of the declared guarded fields, 'caller holds the lock' points, calls, if/for/switch/select/break/continue/return) and "
+             "Coq evaluates the checker whose soundness is proved once: on EVERY control-flow path of every function (any number of loop "
+             "iterations, early returns, through calls) no lock is released unheld, every guarded field is touched only under its mutex "
+             "(writes under the write lock), every function returns holding exactly what it held on entry, and all acquisitions respect one "
+             "strict ranking of the locks, which excludes wait-for cycles. Teardown: Model/Teardown.v interleaves any number of AddPermission / "
+             "AddChannelBind / Close calls and timer expiries at atomic-step granularity; for every step order accepted by orders_ok and EVERY "
+             "schedule nothing stops or resets a nil timer and every published entry has its timer; the step orders are extracted from the "
+             "source each run and the model is compared with the real Manager/Allocation on forced schedules (threads parked inside the "
+             "lifecycle callbacks, closers blocked on the lock, timers fired by the virtual clock).",
+     "note": "Partial by nature: data-race freedom is proved as the lockset condition for the fields declared in translator/lockskel/guards.txt "
+             "only; locks are identified per type, not per object; channel/WaitGroup/atomic synchronisation, callbacks through function values "
+             "and the Go memory model are outside the theorems (the forced-schedule and race-detector runs look there). Trusted: Coq kernel, "
+             "the translator (fails closed; self-test corpus run through the checker each run), guards.txt, the Go harness.",
+     "technique": "Coq proof (soundness of a lock-skeleton checker by induction over commands and call depth; inductive invariant over all "
+                  "interleavings of the teardown step machine) + translator from Go source regenerated each run + forced-schedule "
+                  "correspondence against internal/allocation under testing/synctest"},
     {"property_id": "C14",
      "text": "Coq theorem over an abstract timed system (Model/KeepAlive.v): for every number of refresh cycles, every handler duration up to "
              "three transactions that do not lose all their transmissions, and every instant at which the server processes the refresh, the "
